@@ -96,9 +96,27 @@ static void c12_run_returned(const Case &c, Result &r) {
       bool samex = true;
       for (int j = 0; j < m.n(); j++) if (e.x[j] != acc.x[j]) samex = false;
       Q val = e.pobj * Q(m.objsense >= 0 ? 1 : -1);
-      if (!e.pfeas || !e.dfeas)
-        r.fail(std::string("returned-basis:not-optimal:") + (e.pfeas ? "" : "primal") + (e.dfeas ? "" : "dual") + ":" + tag,
+      if (!e.pfeas || !e.dfeas) {
+        // sub-class: the reported (x, pi) pass the exact optimality certificate (the answer is right) and the basis
+        // is primal feasible, but a reduced cost of the basis has the wrong sign by less than 1e-9 -- the double
+        // stage called the basis optimal within its tolerance and the exact test accepted the rounded solution
+        std::string kind = std::string(e.pfeas ? "" : "primal") + (e.dfeas ? "" : "dual");
+        if (e.pfeas && !e.dfeas) {
+          Q worst = 0, tol("1/1000000000");
+          for (int k = 0; k < m.n() + m.m(); k++) {
+            char st = k < m.n() ? cs[k] : rs[k - m.n()];
+            if (st == '1' || k >= (int)e.dj.size()) continue;
+            bool fixed = k < m.n() ? (m.cols[k].lo == m.cols[k].up) : (m.rows[k - m.n()].sense == 'E' || (m.rows[k - m.n()].sense == 'R' && m.rows[k - m.n()].range == 0));
+            if (fixed) continue;
+            Q v = st == '0' ? Q(-e.dj[k]) : (st == '2' ? e.dj[k] : abs(e.dj[k]));
+            if (v > worst) worst = v;
+          }
+          std::string w2;
+          if (worst > 0 && worst < tol && verify_optimal(m, acc.x, acc.pi, nullptr, &w2)) kind = "dual-below-1e-9-with-certified-solution";
+        }
+        r.fail(std::string("returned-basis:not-optimal:") + kind + ":" + tag,
                "the basis handed back with OPTIMAL is not an optimal basis in exact arithmetic: cstat=" + cs + " rstat=" + rs);
+      }
       else if (val != acc.value) r.fail("returned-basis:value:" + tag, "objective of the returned basis " + qstr(val) + " differs from the reported " + qstr(acc.value));
       else if (!samex) r.label("returned:alternative-optimal-vertex");   // same value, other optimal vertex: allowed? the statement says "is the reported optimal solution"
       if (r.verdict == PASS && !samex)
